@@ -17,7 +17,7 @@ macro_rules! int_harnesses {
     ($t:ty, $single:expr, $dec:ident, $nondec:ident, $other:ident, $kw:ident) => {
         /// Decimal literal: NR1 fast path, float fallback, range errors.
         #[kani::proof]
-        #[kani::unwind(3)]
+        #[kani::unwind(20)]
         #[kani::stub(lexical_core::parse, stub_parse)]
         pub fn $dec() {
             let mode: u8 = kani::any();
@@ -132,7 +132,7 @@ int_harnesses!(isize, false, dec_isize, nondec_isize, other_isize, kw_isize);
 
 /// bool is defined through the isize conversion: true iff the literal rounds to non-zero.
 #[kani::proof]
-#[kani::unwind(3)]
+#[kani::unwind(20)]
 #[kani::stub(lexical_core::parse, stub_parse)]
 pub fn bool_numeric() {
     let mode: u8 = kani::any();
